@@ -18,3 +18,50 @@ Definition vc_after (rtt : Z) : option Z :=
 
 Theorem vegas_ceiling_refuted : vc_after 1000000 = Some 11 /\ vc_after 1600000 = Some 12.
 Proof. split; vm_compute; reflexivity. Qed.
+
+(* ... and how much that costs: whenever the clamped candidate is at or above the estimate (the increase branches, also AT the ceiling where
+   the clamp makes it equal to the estimate), smoothing lowers the stored estimate by less than 2^-20 - three roundings of a value below
+   2^31.  So the reported integer falls by at most one, and only if the stored estimate was within 2^-20 above an integer (at the ceiling:
+   the maximum itself). *)
+From Coq Require Import Reals Lia Lra Psatz.
+From Flocq Require Import Core BinarySingleNaN.
+From GCL Require Import Base.F64Facts Proofs.Smooth Proofs.VegasSafe Proofs.AimdProofs Proofs.GradSafe Proofs.Grad2Safe Proofs.VegasDrop Proofs.VegasRecover Proofs.VegasMono.
+Open Scope R_scope.
+
+Theorem vegas_increase_never_costs_much (v : vegas) (M : Z) (newl : f64) : VInv v M -> fin newl = true ->
+  R (v_est v) <= R (fmax one (fmin (of_int (v_max v)) newl)) ->
+  R (v_est v) - / 1048576 <= R (smoothed v newl).
+Proof.
+  intros HI Fn Hc. pose proof (M_b v M HI) as MB. destruct HI as (C & Fe & E1 & E2). destruct C as [cM cmax csf cs1 cs2].
+  destruct (of_int_exact (v_max v)) as [Fm Em]; [lia|].
+  destruct (fmin_ok _ _ Fm Fn) as [F1 R1]. destruct R_one as [Fo Eo]. destruct (fmax_ok _ _ Fo F1) as [F2 R2].
+  unfold smoothed. set (c := fmax one (fmin (of_int (v_max v)) newl)) in *. rewrite R1, Eo, Em in R2.
+  assert (Mx: 1 <= IZR (v_max v) <= IZR M) by (split; [apply (IZR_le 1)|apply IZR_le]; lia).
+  assert (C1: R c <= IZR M).
+  { rewrite R2. apply Rmax_lub; [lra|]. apply Rle_trans with (1 := Rmin_l _ _). lra. }
+  pose proof dd_small as [D0 D1]. pose proof u_pos as U0.
+  assert (S0: 0 <= R (v_smooth v)) by (assert (0 <= u * IZR M) by (apply Rmult_le_pos; lra); lra).
+  pose proof (smooth_lower (v_smooth v) (v_est v) c (R (v_est v)) csf Fe F2 (conj S0 cs2)) as SL.
+  assert (G1: 1 <= R (v_est v) <= 4294967296) by lra. assert (G2: 0 <= R (v_est v) <= R c) by lra. assert (G3: R c <= 4294967296) by lra.
+  refine (Rle_trans _ _ _ _ (SL G1 G2 G3)).
+  set (e := R (v_est v)) in *. set (sv := R (v_smooth v)) in *.
+  assert (U1: u <= / 9000000000000000) by (unfold u; lra).
+  assert (Eb: e <= 2147483649) by lra.
+  (* e - 2^-20 <= ((e((1-sv)(1-u)-dd)(1-u)-dd) + (sv e (1-u) - dd))(1-u) - dd *)
+  assert (A: e * (1 - sv) * (1 - u) * (1 - u) - e * dd - dd <= e * ((1 - sv) * (1 - u) - dd) * (1 - u) - dd).
+  { assert (0 <= e * dd * u) by (repeat apply Rmult_le_pos; lra). nra. }
+  assert (B: sv * e * (1 - u) * (1 - u) <= sv * e * (1 - u)).
+  { assert (0 <= sv * e * (1 - u)) by (repeat apply Rmult_le_pos; lra). nra. }
+  assert (Cc: e * (1 - u) * (1 - u) - e * dd - 2 * dd <= e * ((1 - sv) * (1 - u) - dd) * (1 - u) - dd + (sv * e * (1 - u) - dd)).
+  { replace (e * (1 - u) * (1 - u)) with (e * (1 - sv) * (1 - u) * (1 - u) + sv * e * (1 - u) * (1 - u)) by ring. lra. }
+  assert (P0: 0 <= e * (1 - u) * (1 - u) - e * dd - 2 * dd).
+  { assert (e * (1 - u) * (1 - u) >= e * (1 - 2 * u)) by nra. assert (e * dd <= 2147483649 * dd) by (apply Rmult_le_compat_r; lra). nra. }
+  assert (Dd: (e * (1 - u) * (1 - u) - e * dd - 2 * dd) * (1 - u) <= (e * ((1 - sv) * (1 - u) - dd) * (1 - u) - dd + (sv * e * (1 - u) - dd)) * (1 - u))
+    by (apply Rmult_le_compat_r; lra).
+  assert (Ee: e - 3 * (e * u) - e * dd - 2 * dd <= (e * (1 - u) * (1 - u) - e * dd - 2 * dd) * (1 - u)).
+  { assert (0 <= e * u * u) by (repeat apply Rmult_le_pos; lra). assert (0 <= e * dd * u) by (repeat apply Rmult_le_pos; lra). assert (0 <= dd * u) by (apply Rmult_le_pos; lra). nra. }
+  assert (Eu: e * u <= 2147483649 * u) by (apply Rmult_le_compat_r; lra).
+  assert (Ed: e * dd <= 2147483649 * dd) by (apply Rmult_le_compat_r; lra).
+  assert (Uu: 3 * (2147483649 * u) <= / 1300000) by (unfold u; lra).
+  lra.
+Qed.
